@@ -331,6 +331,9 @@ func (co *ClipperOffset) doGroupOffset(group *Group) {
 	for _, p := range group.inPaths {
 		co.pathOut = Path64{}
 		cnt := len(p)
+		if cnt == 0 {
+			continue
+		}
 
 		switch cnt {
 		case 1:
